@@ -262,9 +262,11 @@ func (s *scenario) refreshSets() {
 	}
 }
 
-func (s *scenario) cfgLine() string {
-	return fmt.Sprintf("CFG %d %d %d %d %d %d %s %d", s.yp.PenaltyFractionForDoubleSign, s.yp.ExpelledRoundForDoubleSign, s.yp.MaxEvidenceExpiredIn,
-		s.yp.StakeLookBack, params.ACoCHTFrequency*2, 8, params.StakeUint.String(), s.head)
+func (s *scenario) cfgLine() string { return s.cfgLineFor(s.yp) }
+
+func (s *scenario) cfgLineFor(yp *params.YouParams) string {
+	return fmt.Sprintf("CFG %d %d %d %d %d %d %s %d", yp.PenaltyFractionForDoubleSign, yp.ExpelledRoundForDoubleSign, yp.MaxEvidenceExpiredIn,
+		yp.StakeLookBack, params.ACoCHTFrequency*2, 8, params.StakeUint.String(), s.head)
 }
 
 // expectedLookBack is the harness' own reading of which set an evidence of round r is indexed in.
